@@ -2,6 +2,7 @@ import OpusProofs.LayoutSurround
 import OpusProofs.LayoutRoute
 import OpusProofs.LayoutMs
 import OpusProofs.MatrixDemix
+import OpusProofs.MsEncode
 /-
   Property C10 — "Multistream and projection equal per-stream coding plus the channel mapping".
 
@@ -280,6 +281,64 @@ example : msPacketValidate ([0xF8, 2, 7, 7] ++ [0xFC, 9]) 2 48000 = .ok 960 ∧
     msPacketValidate ([0xF8, 2, 7, 7] ++ [0xF4, 9]) 2 48000 = .err .invalidPacket := by decide +kernel
 example : msSerialize [⟨0xF8, [[7, 7]], false, none⟩, ⟨0xFC, [[9]], false, none⟩] = [0xF8, 2, 7, 7, 0xFC, 9] := by
   decide +kernel
+
+/-- **The multistream encoder emits such packets.**  The stream loop of `opus_multistream_encode_native`
+    (per stream: `opus_encode_native` into `tmp_data` with budget `curr_max`, `opus_repacketizer_init` /
+    `_cat` / `_out_range_impl` with `self_delimited = (s ≠ nb_streams−1)` and `pad = !vbr` on the last
+    stream) for EVERY per-stream encoder behaviour within the contract `EncContract` (C02: a success is a
+    valid standard-framing packet of the common `frame_size`, at most `curr_max` bytes; C07: its padding
+    carries no extensions) and every stream count, rate, `max_data_bytes`, VBR/CBR setting:
+    whenever the call succeeds, the bytes written are `serialize true p₁ ++ … ++ serialize false pₙ` for
+    valid packets that all last `frame_size`, they fit `max_data_bytes` (exactly the clamped size in
+    CBR), and `opus_multistream_packet_validate` accepts them with that duration; and the unchecked
+    return value of `opus_repacketizer_out_range_impl` is never negative (the budget arithmetic of
+    `curr_max` always leaves room for the self-delimiting length). -/
+theorem ms_encode_packet_structure (n : Nat) (hn : 1 ≤ n) (fs frameSize : Nat) (hfs : Rate fs) (vbr : Bool)
+    (bitrate : Option Int) (maxData : Int) (enc : Nat → Int → Res Bytes)
+    (hc : MsEncode.EncContract fs frameSize enc) (ht : MsEncode.EncTotal enc) :
+    (∀ out, MsEncode.encodeNative n fs frameSize vbr bitrate maxData enc = .ok out →
+      ∃ ps : List Packet, ps.length = n ∧ (∀ p ∈ ps, Valid p) ∧ (∀ p ∈ ps, duration fs p = frameSize) ∧
+        out = msSerialize ps ∧ (out.length : Int) ≤ maxData ∧
+        (vbr = false → (out.length : Int) =
+          MsEncode.cbrClamp n (decide (fs / frameSize = 10)) vbr fs frameSize bitrate maxData) ∧
+        msPacketValidate out n fs = .ok frameSize) ∧
+    MsEncode.encodeNative n fs frameSize vbr bitrate maxData enc ≠ .abort ∧
+    MsEncode.encodeNative n fs frameSize vbr bitrate maxData enc ≠ .oob := by
+  unfold MsEncode.encodeNative
+  simp only
+  split
+  · exact ⟨fun out h => (by cases h), (by intro h; cases h), (by intro h; cases h)⟩
+  · obtain ⟨h1, h2, h3⟩ := MsEncode.loop_spec n fs frameSize (decide (fs / frameSize = 10)) vbr
+      (MsEncode.cbrClamp n (decide (fs / frameSize = 10)) vbr fs frameSize bitrate maxData) enc hc ht
+      n 0 [] 0 (by omega) (by omega) rfl (fun _ h => by cases h) (fun _ h => by cases h) rfl
+    refine ⟨fun out h => ?_, h2, h3⟩
+    obtain ⟨ps, hlen, hval, hdur, hser, hle, hcbr⟩ := h1 out h
+    have hne : ps ≠ [] := by intro h; rw [h] at hlen; simp at hlen; omega
+    have hv := validateLoop_complete fs hfs ps true 0 frameSize hne hval hdur (fun h => by cases h)
+    rw [hlen, ← hser] at hv
+    exact ⟨ps, hlen, hval, hdur, hser, Int.le_trans hle (MsEncode.cbrClamp_le _ _ _ _ _ _ _), hcbr, hv⟩
+
+/-- the contract is satisfiable: a per-stream encoder that always emits the 20 ms CELT packet `F8 07 07`
+    when it has room (the model is executed on such oracles by the `msenc` correspondence suite) -/
+example : MsEncode.EncContract 48000 960
+      (fun _ cm => if 3 ≤ cm then .ok (serialize false ⟨0xF8, [[7, 7]], false, none⟩) else .err .bufferTooSmall) ∧
+    MsEncode.EncTotal (fun _ cm => if 3 ≤ cm then .ok (serialize false ⟨0xF8, [[7, 7]], false, none⟩) else .err .bufferTooSmall) := by
+  have hv : Valid ⟨0xF8, [[7, 7]], false, none⟩ :=
+    { toc_byte := by decide
+      frame_max := by intro f hf; simp only [List.mem_singleton] at hf; subst hf; decide
+      code0 := fun _ => ⟨rfl, rfl, rfl⟩
+      code1 := fun h => absurd h (by decide)
+      code2 := fun h => absurd h (by decide)
+      code3 := fun h => absurd h (by decide)
+      pad_ok := fun pd h => by cases h }
+  constructor
+  · intro s cm pk h
+    dsimp only at h
+    split at h
+    · cases h
+      exact ⟨_, hv, RepackProofs.count_nil 1 (by decide), rfl, by decide, by simpa [serialize, header, lenFields, Packet.code, Packet.lens, padBytes] using (by assumption : 3 ≤ cm)⟩
+    · cases h
+  · intro s cm; constructor <;> intro h <;> dsimp only at h <;> split at h <;> cases h
 
 /-- **The int16 output path of the mapping matrices saturates** (the code as repaired by `fix:` commit
     a7a5d7f2): whatever the float input and the matrix, every sample `multiply_channel_out_short` leaves
